@@ -82,6 +82,30 @@ class CallMixin:
         if k == 'func':
             f = self.prog.funcs[fv.a[0]]
             return self.call_func(f, None, args, kwargs, node, st, starkw)
+        if k == 'closure':
+            # a closure returned by an inlined helper: executed with the bindings it captured
+            f = self.prog.funcs[fv.a[0]]
+            ev = self.emit(st, 'CALL', node, targets=[f], recv=None, name=f.name, args=args, kwargs=kwargs,
+                           starkw=starkw, operator=False)
+            ev.d['inlined'] = True
+            if len(st.stack) >= self.opts.max_depth:
+                return self.after_call(ev, [(V('ret', ev.seq, (f.qual,)), st)])
+            env = dict(self._closures[fv.a[1]])
+            env.update(self.bind_args(f, None, args, kwargs, st, starkw))
+            st.push_frame(f, env, (getattr(node, 'lineno', 0), getattr(node, 'col_offset', 0)))
+            out = []
+            for outcome, s in self.exec_block(f.node.body, st):
+                s.pop_frame()
+                kind = outcome[0]
+                if kind == 'return':
+                    out.append((outcome[1], s))
+                elif kind == 'raise':
+                    out.append((outcome[1], s))
+                elif kind == 'cut':
+                    out.append((Raise('CUT'), s))
+                else:
+                    out.append((NONE, s))
+            return out
         if k == 'cls':
             cname = fv.a[0]
             ev = self.emit(st, 'NEW', node, name=cname, args=args, kwargs=kwargs)
@@ -455,12 +479,20 @@ class CallMixin:
         st.push_frame(f, env, (getattr(node, 'lineno', 0), getattr(node, 'col_offset', 0)))
         out = []
         for outcome, s in self.exec_block(f.node.body, st):
+            frame_env = s.env
             s.pop_frame()
             kind = outcome[0]
             if kind in ('next',):
                 out.append((NONE, s))
             elif kind == 'return':
-                out.append((outcome[1], s))
+                rv = outcome[1]
+                if rv.k == 'func' and rv.a[0] in self.prog.funcs and self.prog.funcs[rv.a[0]].parent is f \
+                        and not self.prog.funcs[rv.a[0]].is_generator:
+                    # a helper that returns one of its closures: keep the bindings it closes over
+                    table = self.__dict__.setdefault('_closures', [])
+                    table.append(dict(frame_env))
+                    rv = V('closure', rv.a[0], len(table) - 1)
+                out.append((rv, s))
             elif kind == 'raise':
                 out.append((outcome[1], s))
             elif kind == 'cut':
